@@ -640,7 +640,7 @@ def lin_diff(hi, lo):
     return frozenset((k, v) for k, v in out.items() if v != 0), ca - cb
 
 
-def r_guard_exact(F, engine, fn, specs, invariants=(), label=None, optional=False, _depth=0):
+def r_guard_exact(F, engine, fn, specs, invariants=(), label=None, optional=False, _depth=0, no_other=False):
     """specs: list of (X, Y) value terms; the operation is in bounds iff X <= Y (over Z). Every throwing guard of fn
     must refuse exactly Y < X, or be a recognised wrap refusal, or be trivially false."""
     engine.analyze(fn, frozenset(invariants))
@@ -682,7 +682,7 @@ def r_guard_exact(F, engine, fn, specs, invariants=(), label=None, optional=Fals
             req = "the refusal condition is exactly the out-of-bounds condition (%s)" % " or ".join(
                 "%s %s %s" % (fmt_term(x), ">=" if st else ">", fmt_term(y)) for (x, y), st in zip(specs, strict_in))
             if f[0] not in ("<", "<="):
-                if not optional:
+                if not optional or no_other:
                     out.append(bad("R-GUARD", inst, fn.loc(cid), fn.qn, req, "refusal condition `%s` is not a bounds comparison" % fmt_fact(f)))
                 continue
             L, R = expand(f[1], defs), expand(f[2], defs)
@@ -721,7 +721,7 @@ def r_guard_exact(F, engine, fn, specs, invariants=(), label=None, optional=Fals
                 if near:
                     out.append(bad("R-GUARD", inst, fn.loc(cid), fn.qn, req,
                                    "refusal `%s` differs from the bounds condition by the constant %d" % (fmt_fact(f), d[1] - targets[near[0]][1])))
-                elif not optional:
+                elif not optional or no_other:
                     out.append(bad("R-GUARD", inst, fn.loc(cid), fn.qn, req, "refusal `%s` is not the bounds condition" % fmt_fact(f)))
     missing = [i for i in range(len(specs)) if i not in matched]
     if missing and not optional and _depth < 2:
